@@ -5,8 +5,11 @@ import (
 	"context"
 	"database/sql"
 	"fmt"
+	"math/rand"
 	"sort"
+	"strings"
 	"sync"
+	"sync/atomic"
 	"time"
 
 	"github.com/ethereum/go-ethereum/common"
@@ -92,6 +95,8 @@ type TrigOut struct {
 	Msg    Msg   `json:"msg"`
 }
 
+var orderSalt atomic.Int64
+
 // recording p2p.Messaging ------------------------------------------------------------------------
 
 type recorder struct {
@@ -150,6 +155,20 @@ func NewNode(w *World) (*Node, error) {
 	}
 	n.pool = pool
 	n.base = n.srv.Snapshot()
+	// SQL leaves the order among rows with equal ORDER BY keys (GetNotDecryptedIdentityRegisteredEvents
+	// orders by timestamp only) and of queries without ORDER BY (GetUndecryptedFiredTriggers)
+	// unspecified: choose a seeded random order for exactly these two result sets, so that the
+	// sorting done by the repository code sees every arrival order
+	rng := rand.New(rand.NewSource(w.Seed*1000003 + orderSalt.Add(1)))
+	var rmu sync.Mutex
+	n.srv.SetRowOrder(func(stmt string, k int) []int {
+		if !strings.Contains(stmt, "GetNotDecryptedIdentityRegisteredEvents") && !strings.Contains(stmt, "GetUndecryptedFiredTriggers") {
+			return nil
+		}
+		rmu.Lock()
+		defer rmu.Unlock()
+		return rng.Perm(k)
+	})
 	n.cfg = &shutterservice.Config{
 		InstanceID: InstanceID,
 		Chain: &shutterservice.ChainConfig{
@@ -223,7 +242,7 @@ func (n *Node) Reset(u *Uni) error {
 // (membership, activation) and from the concretiser's chain; registration data is what the driver
 // will insert.
 func (n *Node) ObservedUni() Uni {
-	o := Uni{Member: []bool{false, false}, Act: []int{-1, -1}, Ids: append([]IdSpec{}, n.U.Ids...), Trg: append([]TrgSpec{}, n.U.Trg...)}
+	o := Uni{Member: []bool{false, false}, Act: []int{-1, -1}, Gen: append([]int{}, n.U.Gen...), Ids: append([]IdSpec{}, n.U.Ids...), Trg: append([]TrgSpec{}, n.U.Trg...)}
 	me := shdb.EncodeAddress(n.cfg.GetAddress())
 	n.srv.View(func(db *fakepg.DB) {
 		for _, bc := range db.TendermintBatchConfig {
